@@ -118,7 +118,7 @@ type attrKind struct {
 }
 
 var probeAttrs = []attrKind{
-	{"str", "str", false, []string{"hello", "with space", "x=y", "42"}, nil},
+	{"str", "str", false, []string{"hello", "with space", "x=y", "42", "C:\\new\\tmp\\file", "a\\\\n", "tab\there"}, nil},
 	{"reqStr", "str", true, []string{"needed", "r2"}, nil},
 	{"num", "int", false, []string{"0", "12", "-3", "100000"}, []string{"twelve", "1.5", "", "99999999999999999999"}},
 	{"bigNum", "int64", false, []string{"9007199254740993", "-9223372036854775808"}, []string{"9223372036854775808", "x1"}},
